@@ -27,6 +27,11 @@ pub struct Ctl {
     pub fail_at: Vec<u64>,
     /// number of injected failures so far
     pub injected: u64,
+    /// deliver a short (non-zero) count at the reads with these sequence
+    /// numbers: (seq, mode) with mode 0 = 1 byte, 1 = half, 2 = all but one
+    pub short_at: Vec<(u64, u8)>,
+    /// set by `gate` when the current call was selected for a short count
+    pub short_now: Option<u8>,
     /// chunking: when Some, split transfers and inject Interrupted
     pub chunk: Option<Rng>,
     /// log of raw calls (kind, offset, len) when enabled
@@ -73,6 +78,13 @@ impl SharedBuf {
         if ctl.fail_kinds[kidx(kind)] {
             let s = ctl.seq;
             ctl.seq += 1;
+            if let Some(i) = ctl.short_at.iter().position(|&(k, _)| k == s) {
+                let (_, m) = ctl.short_at.remove(i);
+                if kind == CallKind::Read {
+                    ctl.short_now = Some(m);
+                    ctl.injected += 1;
+                }
+            }
             if let Some(i) = ctl.fail_at.iter().position(|&k| k == s) {
                 ctl.fail_at.remove(i);
                 ctl.injected += 1;
@@ -111,7 +123,16 @@ impl Read for SharedBuf {
         let avail = data.len() - start;
         let want = buf.len().min(avail);
         drop(data);
-        let n = self.chunk(want)?;
+        let mut n = self.chunk(want)?;
+        if let Some(m) = self.ctl.lock().unwrap().short_now.take() {
+            if n > 1 {
+                n = match m {
+                    0 => 1,
+                    1 => n / 2,
+                    _ => n - 1,
+                };
+            }
+        }
         let data = self.data.lock().unwrap();
         buf[..n].copy_from_slice(&data[start..start + n]);
         self.pos += n as u64;
